@@ -106,6 +106,9 @@ def run(rep: Report, tier: str) -> None:
     engine.check_heap_typestate(rep, rh)
     engine.check_schedule_traversal(rep, rh)
     engine.check_chronological_input(rep, rh)
+    engine.check_key_builder(rep, rh)  # a lot whose index key sorts after the disposal's is hidden: 'Total in-transaction crypto value < total taxable crypto value' on a valid input
+    ri = rep.rule("C16.i", "report sheets are large enough: the per-type counter the tax reports size their sheets with counts every fraction of the window once", floor=2)
+    engine.check_type_counter(rep, ri)
     rg = rep.rule("C16.g", "default options are accepted: -m defaults to 'not given'; conflict check unchanged", floor=2)
     _check_m_default(rep, rg, m)
 
